@@ -98,6 +98,10 @@ enum ClockPat {
     Tie,
     /// same base, events interleave by tick
     Interleaved,
+    /// device 0's clock is an hour BEHIND the clock that wrote the shared
+    /// prefix (a clock set backwards): its offline events are older than
+    /// records both sides already hold
+    Behind,
 }
 
 #[derive(Clone, Debug, Serialize, Deserialize)]
@@ -426,6 +430,40 @@ async fn debug_dump(label: &str, devices: &[Device], server: &vkit::world::Serve
 
 /// C20 (tagged) on one device: the incrementally maintained search index
 /// equals an index rebuilt from the unlocked folders.
+/// C16 (soundness after merges): the integrity report of an untampered
+/// device that merged events from another device contains no failure.
+async fn check_c16_device(dev: &Device, when: &str, cls: &str, fails: &mut Fails) {
+    use sos_integrity::{account_integrity, FolderIntegrityEvent};
+    let folders = {
+        let acc = dev.account.lock().await;
+        match acc.list_folders().await {
+            Ok(f) => f,
+            Err(_) => return,
+        }
+    };
+    let r: Result<Vec<String>> = async {
+        let (mut rx, _cancel) = account_integrity(&dev.target, &dev.account_id, folders, 1).await?;
+        let mut failures = vec![];
+        while let Some(ev) = tokio::time::timeout(std::time::Duration::from_secs(30), rx.recv()).await.map_err(|_| anyhow!("integrity report did not complete"))? {
+            match ev {
+                FolderIntegrityEvent::Failure(_, f) => failures.push(format!("{:?}", f)),
+                FolderIntegrityEvent::Complete => break,
+                _ => {}
+            }
+        }
+        Ok(failures)
+    }
+    .await;
+    match r {
+        Ok(f) if !f.is_empty() => {
+            let short: String = f[0].split(|c: char| !c.is_ascii_alphanumeric()).next().unwrap_or("").to_string();
+            fails.push("C16", format!("after_merge:false_alarm:{}:{}:{}", short, cls, dev.backend.name()), format!("{}: the integrity report of an untampered device contains a failure: {}", when, f[0].chars().take(160).collect::<String>()), json!({"device": dev.idx}));
+        }
+        Err(e) => fails.push("C16", format!("after_merge:report_error:{}", dev.backend.name()), format!("{}", e), json!({"device": dev.idx})),
+        _ => {}
+    }
+}
+
 async fn check_c20_device(dev: &Device, when: &str, cls: &str, fails: &mut Fails) {
     let acc = dev.account.lock().await;
     let r: Result<()> = async {
@@ -500,6 +538,7 @@ async fn run_scenario(t: &Template, sc: &Scenario, work: &Path) -> Value {
         match sc.clock {
             ClockPat::D1Older => clock::configure(1, 3_700_000_000_000, 1_000_001),
             ClockPat::D2Older => clock::configure(0, 3_700_000_000_000, 1_000_001),
+            ClockPat::Behind => clock::configure(0, -3_600_000_000_000, 1_000_001),
             ClockPat::Tie | ClockPat::Interleaved => {}
         }
         let server = start_server(&work.join("server"), sc.server_db, None, None).await?;
@@ -577,6 +616,7 @@ async fn run_scenario(t: &Template, sc: &Scenario, work: &Path) -> Value {
             cls = sig_class(sc, identical);
         }
         let cls = cls.clone();
+        let by_c16 = std::env::var("SYNCX_C16").is_ok();
         let mut kcs: Vec<KeyCache> = (0..n_edit + 1).map(|_| KeyCache::default()).collect();
         // phase 2: syncs
         let mut results = vec![];
@@ -594,6 +634,9 @@ async fn run_scenario(t: &Template, sc: &Scenario, work: &Path) -> Value {
             step += 1;
             check_c02_device(&devices[d], &format!("sync step {}", step), &cls, &mut fails, &mut kcs[d]).await;
             check_c20_device(&devices[d], &format!("sync step {}", step), &cls, &mut fails).await;
+            if by_c16 {
+                check_c16_device(&devices[d], &format!("sync step {}", step), &cls, &mut fails).await;
+            }
         }
         // rounds until quiescent
         let mut converged = false;
@@ -1073,6 +1116,12 @@ fn scenarios(tier: Tier, backend: Backend, server_db: bool) -> Vec<Scenario> {
             }
         }
     }
+    // a device whose clock runs behind the shared prefix
+    for (x, y) in [(vec![Edit::CreateNote], vec![Edit::CreateNote]), (vec![Edit::UpdateS0], vec![Edit::CreateNote]), (vec![Edit::CreateNote, Edit::CreateNote], vec![Edit::CreateNote])] {
+        for o in &orders {
+            out.push(Scenario { edits: vec![x.clone(), y.clone()], order: o.clone(), clock: ClockPat::Behind, client_backend: backend, server_db });
+        }
+    }
     // one device renames the same folder twice between two syncs (a merged
     // patch with several header events of one kind)
     for y in [vec![], vec![Edit::CreateNote]] {
@@ -1194,7 +1243,7 @@ fn all_scenarios(tier: Tier) -> Vec<Scenario> {
         v.extend(scenarios(tier, b, s));
         // quick: the forced-overwrite worlds also on the sqlite client + server
         if tier == Tier::Quick && std::env::var("SYNCX_CONFIG").is_err() && b == Backend::Fs {
-            v.extend(scenarios(tier, Backend::Db, true).into_iter().filter(is_force_merge_world));
+            v.extend(scenarios(tier, Backend::Db, true).into_iter().filter(|sc| is_force_merge_world(sc) || sc.clock == ClockPat::Behind));
         }
     }
     if std::env::var("SYNCX_ONLY_FORCE").is_ok() {
